@@ -13,6 +13,9 @@ import XotModel.Lemmas.FmapHistSer
 import XotModel.Lemmas.FmapRetHist
 import XotModel.Lemmas.FmapRefRun
 import XotModel.Model.ValueAccess
+import XotModel.Lemmas.FmapMix
+import XotModel.Lemmas.ParseWitness
+import XotModel.Model.FspecSpec
 
 namespace XotModel.Props
 open XotModel
@@ -163,7 +166,7 @@ theorem C11_children_untouched (f : Forest) (hi : f.Inv) (k : Forest.MapKind) (e
         ks'.filter (fun c => !k.matches c.value) = ks.filter (fun c => !k.matches c.value) := by
   obtain ⟨nm, N, A, S, h⟩ := minv_of_inv f e hi he
   refine ⟨nm, _, h.loc.get, ?_⟩
-  have fin : ∀ f' s', Step f f' e nm N A S k f.roots s' →
+  have fin : ∀ f' s', Fmap.Step f f' e nm N A S k f.roots s' →
       ∃ ks', f' = { f with roots := withKids f.roots e ks', next := f'.next } ∧
         ks'.filter (fun c => !k.matches c.value) =
           (N ++ A ++ S).filter (fun c => !k.matches c.value) := by
@@ -1057,5 +1060,184 @@ example : (refRun (refOf c11Example3) c11CallsA).1 =
       [(7, .str ['x']), (9, .str ['n']), (3, .str ['q'])] ∧
     (refRun (refOf c11Example3) c11CallsA).2.fresh = 10 := by
   decide
+
+end XotModel.Props
+
+/-! # ================================================================================================
+    # INTERLEAVINGS: map updates interleaved with every other call (branch wt-reach2)
+    # ================================================================================================
+
+  The history theorems above (`C11_histories_all`, …) run map updates only.  `Fmap.MixStep`
+  (Model/FmapMixSpec.lean) = a map update of `MapOp2` addressed to some element, OR any step of the full histories
+  `PCall` (Model/FparseHist.lean): the parse of an ARBITRARY text (accepted or rejected, either mode), or any
+  extended API call `Forest.XCall` — append / prepend / insert_after / insert_before / detach / remove / replace /
+  element_wrap / element_unwrap / clone_node / the setters / text_content_set / map calls as API calls / node
+  creation / set_text_consolidation / remove_insignificant_whitespace / create_missing_prefixes /
+  deduplicate_namespaces / clone_with_prefixes.  State: `PStore` (forest + interning tables + xml:id index).
+
+  `C11_histories_interleaved`: for a set `T` of tracked elements, after ANY such history both views of every
+  tracked element are what the abstract insertion-ordered maps predict FROM THE MAP STEPS ALONE
+  (`specOps2 (famOf start) (mapOpsOf steps)`: the other steps do not occur in the prediction), the invariant holds,
+  tracked elements stay elements — given `Fmap.mixOk T`, evaluated step by step in the state the step meets:
+
+    * a map step satisfies its own side conditions `MapOp2.ok` (as in `C11_histories_all`), and `T` is closed
+      under it: a move of an attached entry node (`appendAttachedNode`, `anyAppend (.entry …)`) between a tracked
+      and an untracked element is excluded (the tracked view would depend on the untracked one) — track both;
+    * another step is well-kinded (`PCall.wellKinded`, the one side condition of C04 — so it KEEPS `Forest.Inv`
+      by `C04_step_full`; no hypothesis on the invariant is left) and `Fmap.touchesEntries f x c = false` for every
+      tracked `x`.
+
+  **Which calls can touch the entries of an element `x`.**  In the code: `remove` / `detach` of an entry node of `x`;
+  `replace` of an entry node or by one;
+  `append` / `insert_*` / `any_append` that moves an entry node of `x` away or an attribute / namespace node into
+  `x`; the map calls on `x` as API calls; `create_missing_prefixes(n)` and `deduplicate_namespaces(n)` for an
+  ancestor-or-self `n` of `x` (they add / remove namespace nodes below `n`); `remove` of `x` or of an ancestor
+  (the view becomes empty: `x` is no longer live).  EVERY one of these names, as a written argument
+  (`Forest.XCall.writeArgs`), a node of the parentless tree that holds `x`.  `touchesEntries f x c` is the decidable
+  OVER-approximation "some written node argument of `c` lies in the parentless tree of `f` that holds `x`, or `x`
+  is not live" (a parse never touches: it only adds a parentless tree on fresh handles; `clone_node` /
+  `clone_with_prefixes` only READ their argument; node creation and `set_text_consolidation` name no node).
+  So the theorem covers every call addressed to OTHER parentless trees (other documents, fragments, detached
+  subtrees, clones), every creation, every parse.
+
+  NOT covered (`touchesEntries = true` although the entries are in fact untouched): calls addressed to a node
+  of the SAME parentless tree outside `x` and its entries — e.g. `append` of a text node to a sibling element.
+  What is missing for them is a per-call frame lemma "the child list of every node that is neither the call's
+  source parent nor its destination parent (nor inside a removed subtree) is unchanged" for all 30-odd
+  constructors; the C05 frame theorems (`C05_pair_frame_*`) give this for the moves, per node shape, but
+  not yet in the `get?`-of-the-parent form `abs` needs, and not for the composites.  The statement with the
+  sharper predicate is otherwise the same (only `Fmap.abs_step_of_not_touches` would change). -/
+
+namespace XotModel.Props
+open XotModel Fmap
+
+/-- ⟦C11_not_touching_frame⟧ One non-map step — a parse, or an extended API call — that does not
+    `touchesEntries` of `x`, on a store with the invariant: the subtree at `x` (hence both views, and
+    `is_element`) is exactly what it was, and the invariant holds again. -/
+theorem C11_not_touching_frame (s : PStore) (hi : s.forest.Inv) (c : PCall) (hw : c.wellKinded) (x : Nat)
+    (ht : touchesEntries s.forest x c = false) :
+    (s.step c).forest.get? x = s.forest.get? x ∧
+    (∀ k, abs k (s.step c).forest x = abs k s.forest x) ∧
+    (∀ k, absNodes k (s.step c).forest x = absNodes k s.forest x) ∧
+    (s.step c).forest.isElement x = s.forest.isElement x ∧
+    (s.step c).forest.Inv := by
+  have h := get?_step_of_not_touches hi c hw x ht
+  refine ⟨h, fun k => abs_step_of_not_touches hi c hw x ht k, fun k => ?_,
+    isElement_step_of_not_touches hi c hw x ht, PStore.fph_step_inv hi c hw⟩
+  unfold absNodes; rw [h]
+
+/-- What `touchesEntries = false` says. -/
+theorem C11_touchesEntries_iff (f : Forest) (x : Nat) (c : PCall) :
+    touchesEntries f x c = false ↔
+      match c with
+      | .parse _ _ => f.isLive x = true
+      | .api y => ∃ r, rootOf? f x = some r ∧ ∀ a ∈ y.writeArgs, a ∉ HTree.handles r := by
+  cases c with
+  | parse m t => simp [touchesEntries]
+  | api y =>
+    simp only [touchesEntries]
+    cases h : rootOf? f x with
+    | none => simp
+    | some r => simp
+
+/-- The reference step is local: it changes the maps of `MapOp2.elems` only, and reads only those. -/
+theorem C11_specStep_local (F G : Fam) (op : MapOp2) :
+    (∀ x k, x ∉ op.elems → specStep F op x k = F x k) ∧
+    ((∀ y ∈ op.elems, ∀ k, F y k = G y k) → ∀ x ∈ op.elems, ∀ k, specStep F op x k = specStep G op x k) :=
+  ⟨fun x k hx => specStep_off F op x k hx,
+   fun h x hx k => specStep_congr_on F G op x k h (h x hx k)⟩
+
+/-- ⟦C11_histories_interleaved⟧ **Map updates interleaved with every other call.**  From any store with the
+    invariant, along any history of map updates (`MapOp2`, addressed to any elements) and other steps (parses of
+    arbitrary texts, extended API calls) satisfying `mixOk T`: the attribute view and the namespace view of every
+    tracked element are the reference family's after the MAP steps of the history alone, keys are distinct,
+    tracked elements stay elements, and the invariant holds at the end. -/
+theorem C11_histories_interleaved (s : PStore) (hi : s.forest.Inv) (T : List Nat) (steps : List MixStep)
+    (hok : mixOk T s steps) :
+    (∀ x ∈ T, ∀ k, abs k (mixRun s steps).forest x = specOps2 (famOf s.forest) (mapOpsOf steps) x k) ∧
+    (∀ x k, omWf (abs k (mixRun s steps).forest x)) ∧
+    (∀ x ∈ T, (mixRun s steps).forest.isElement x = s.forest.isElement x) ∧
+    (mixRun s steps).forest.Inv := by
+  obtain ⟨h1, h2, h3⟩ := mix_history T steps s (famOf s.forest) hi (fun _ _ _ => rfl) hok
+  exact ⟨h2, fun x k => unique_keys_of_inv _ h1 k x, h3, h1⟩
+
+/-- ⟦C11_reachable_histories_interleaved_full⟧ … on every store a history of parses and API calls reaches from
+    `Xot::new()`: no hypothesis on the invariant at all (`C04_reach_full`). -/
+theorem C11_reachable_histories_interleaved_full (env : Env) (pre : List PCall) (hw : ∀ c ∈ pre, c.wellKinded)
+    (T : List Nat) (steps : List MixStep) (hok : mixOk T ((PStore.init env).run pre) steps) :
+    let s := (PStore.init env).run pre
+    (∀ x ∈ T, ∀ k, abs k (mixRun s steps).forest x = specOps2 (famOf s.forest) (mapOpsOf steps) x k) ∧
+    (∀ x k, omWf (abs k (mixRun s steps).forest x)) ∧
+    (∀ x ∈ T, (mixRun s steps).forest.isElement x = s.forest.isElement x) ∧
+    (mixRun s steps).forest.Inv :=
+  C11_histories_interleaved _ (PStore.fph_run_inv pre (PStore.fph_init_inv env) hw) T steps hok
+
+/-- A history of map updates only is an interleaved history (`runOps2` of `C11_histories_all`). -/
+theorem C11_interleaved_extends (s : PStore) (ops : List MapOp2) :
+    (mixRun s (ops.map .map)).forest = (runOps2 s.forest ops).1 ∧ mapOpsOf (ops.map .map) = ops := by
+  induction ops generalizing s with
+  | nil => exact ⟨rfl, rfl⟩
+  | cons op ops ih =>
+    obtain ⟨a, b⟩ := ih (MixStep.run s (.map op))
+    refine ⟨?_, by simp only [List.map_cons, mapOpsOf, b]⟩
+    show (mixRun (MixStep.run s (.map op)) (ops.map .map)).forest = _
+    rw [a]; simp [runOps2, MixStep.run]
+
+/-! ### Non-vacuity: two parsed documents, map updates on `r` and `c` of the first interleaved with calls on the
+    second, node creation, parses (one of a fragment, one REJECTED), `create_missing_prefixes` on the second
+
+  `<r a="1"><c/></r>` = document 0, `r` 1, `a` 2, `c` 3; `<q><p b="2"/></q>` = document 4, `q` 5, `p` 6, `b` 7.
+  Names: 2 `r`, 3 `a`, 4 `c`, 5 `q`, 6 `p`, 7 `b`.  Tracked: `r` and `c` (the last step moves `c`'s attribute to
+  `r`, so tracking `r` alone is refused). -/
+
+def c11MixPre : List PCall :=
+  [.parse .document "<r a=\"1\"><c/></r>".toList, .parse .document "<q><p b=\"2\"/></q>".toList]
+def c11MixSteps : List MixStep := [
+  .map (.setAttribute 1 5 ['v']),
+  .other (.api (.newNode (.element 4))),
+  .other (.api (.call (.append 5 9))),
+  .map (.insert .namespaces 1 (.namespace 0 2)),
+  .other (.parse .fragment "x<y/>".toList),
+  .other (.api (.call (.remove 7))),
+  .map (.setAttribute 3 7 ['w']),
+  .other (.api (.createMissingPrefixes 4)),
+  .other (.parse .document "<a><b></a>".toList),
+  .map (.removeAttribute 1 3),
+  .map (.appendAttachedNode .attributes 1 3 7)]
+
+theorem c11MixPre_wellKinded : ∀ c ∈ c11MixPre, c.wellKinded := by decide
+theorem c11Mix_ok : mixOk [1, 3] ((PStore.init Env.fresh).run c11MixPre) c11MixSteps := by decide +kernel
+
+example : ¬ mixOk [1] ((PStore.init Env.fresh).run c11MixPre) c11MixSteps := by decide +kernel
+example : mapOpsOf c11MixSteps = [.setAttribute 1 5 ['v'], .insert .namespaces 1 (.namespace 0 2),
+    .setAttribute 3 7 ['w'], .removeAttribute 1 3, .appendAttachedNode .attributes 1 3 7] := rfl
+/-- what the theorem says (the prediction uses the five map steps only) … -/
+example : abs .attributes (mixRun ((PStore.init Env.fresh).run c11MixPre) c11MixSteps).forest 1 =
+    specOps2 (famOf ((PStore.init Env.fresh).run c11MixPre).forest) (mapOpsOf c11MixSteps) 1 .attributes :=
+  (C11_reachable_histories_interleaved_full Env.fresh c11MixPre c11MixPre_wellKinded [1, 3] c11MixSteps c11Mix_ok).1
+    1 (by decide) .attributes
+/-- … and what model and reference compute. -/
+example :
+    abs .attributes (mixRun ((PStore.init Env.fresh).run c11MixPre) c11MixSteps).forest 1 = [(5, .str ['v']), (7, .str ['w'])] ∧
+    abs .namespaces (mixRun ((PStore.init Env.fresh).run c11MixPre) c11MixSteps).forest 1 = [(0, .ns 2)] ∧
+    abs .attributes (mixRun ((PStore.init Env.fresh).run c11MixPre) c11MixSteps).forest 3 = [] ∧
+    specOps2 (famOf ((PStore.init Env.fresh).run c11MixPre).forest) (mapOpsOf c11MixSteps) 1 .attributes =
+      [(5, .str ['v']), (7, .str ['w'])] ∧
+    (mixRun ((PStore.init Env.fresh).run c11MixPre) c11MixSteps).forest.allHandles =
+      [0, 1, 10, 8, 14, 3, 4, 5, 6, 9, 11, 12, 13] := by decide +kernel
+
+/-- The hypothesis is needed, and `touchesEntries` sees it: `remove` of the entry node 2, `remove` of `r`,
+    `create_missing_prefixes` / `deduplicate_namespaces` on the document of `r`, `replace` of the entry node are
+    flagged; after `remove(2)` the view of `r` has changed although no map step was made. -/
+example :
+    let f := ((PStore.init Env.fresh).run c11MixPre).forest
+    touchesEntries f 1 (.api (.call (.remove 2))) = true ∧ touchesEntries f 1 (.api (.call (.remove 1))) = true ∧
+    touchesEntries f 1 (.api (.call (.detach 2))) = true ∧ touchesEntries f 1 (.api (.call (.replace 2 7))) = true ∧
+    touchesEntries f 1 (.api (.createMissingPrefixes 0)) = true ∧
+    touchesEntries f 1 (.api (.deduplicateNamespaces 0)) = true ∧
+    touchesEntries f 1 (.api (.call (.remove 7))) = false ∧ touchesEntries f 1 (.api (.createMissingPrefixes 4)) = false ∧
+    touchesEntries f 1 (.api (.call (.cloneNode 1))) = false ∧ touchesEntries f 1 (.parse .document []) = false ∧
+    abs .attributes (((PStore.init Env.fresh).run c11MixPre).step (.api (.call (.remove 2)))).forest 1 = [] ∧
+    abs .attributes f 1 = [(3, .str ['1'])] := by decide +kernel
 
 end XotModel.Props
